@@ -21,8 +21,8 @@ THEOREMS = ['Props.C06.' + t for t in ['scan_reads_selected_lines', 'history_tab
                                     'history_leaves_reader_unchanged', 'history_preserves_view',
                                     'skip_to_nonblank_spins_iff', 'read_until_spins_iff', 'skipto_progresses',
                                     'history_cell_eq_stepping_cell_partial', 'history_table_eq_stepping_partial',
-                                    'history_series_visits_every_time', 'series_one_value_per_time']]
-LEVEL_TEXT = ('Proof: 12 Lean theorems about the model of t2listing.history(): the one-pass read of the selected rows of a table returns for every '
+                                    'history_series_visits_every_time', 'series_one_value_per_time', 'history_one_table_is_one_scan']]
+LEVEL_TEXT = ('Proof: 13 Lean theorems about the model of t2listing.history(): the one-pass read of the selected rows of a table returns for every '
               'entry (any number, any order, repeated rows) exactly the cell that the row reader gives for that row line, with the same exception '
               'when a cell cannot be read (scan_reads_selected_lines, history_table_eq_cells); a reversed connection name yields the negated value; '
               'a history() call that returns leaves index, time, step and every table of the reader unchanged (history_leaves_reader_unchanged, '
@@ -37,6 +37,7 @@ LEVEL_TEXT = ('Proof: 12 Lean theorems about the model of t2listing.history(): t
               'history_series_visits_every_time: a whole history() call that returns (any simulator) has visited every result position in turn, what it appends at a '
               'position depends on that position only, and each returned series is the concatenation in file order of the per-position values. '
               'series_one_value_per_time: when each position contributes one value for an item, its series has exactly one value per result time, in time order. '
+              'history_one_table_is_one_scan: at one result position, once the file is at the table, what history() appends for it is exactly that one-pass read over the lines from the first results line on, with the table\'s own read_table_line and column index. '
               'Still not proved: that row_line[] recorded at set-up equals the row-line offsets used by stepping, that skip_to_table lands on the table (Aligned), '
               'and the AUTOUGH2 row loop against stepping.')
 LEVEL_NOTE = ('Trusted: Lean kernel (+propext, Classical.choice, Quot.sound); the hand-written whole-file model (history() of the model vs the real call: same '
